@@ -298,6 +298,18 @@ fn judge(ctx: &Ctx, op: &str, name_of: &dyn Fn(&BigUint) -> String, obs: Guard<O
                 ctx.violation(&site, &format!("out-of-range-candidate-used/{}", name_of(&drawn)), format!("used={} order={}", a2::hexbig(&drawn), a2::hexbig(&ord)), cj());
                 return None;
             }
+            // the sampler itself may refuse an in-range candidate only for the documented reasons: the top value order-1
+            // (keys live in [1, order-2]) and, for SM9, a candidate whose low 64-bit limb is zero. Anything pickier
+            // (no zero byte, no small value, ...) removes part of the range and biases every scalar.
+            if let Some(first_in) = offered.iter().map(|c| from_be(c)).find(|v| !v.is_zero() && *v < ord) {
+                let sm9 = op.starts_with("sm9");
+                let excusable = first_in == &ord - 1u32 || (sm9 && (&first_in & BigUint::from(u64::MAX)).is_zero());
+                let first_acc = accepted.first().map(from_limbs);
+                if !excusable && first_acc.as_ref() != Some(&first_in) {
+                    ctx.violation(&site, "sampler-refused-an-in-range-candidate", format!("candidate={} first accepted={:?}", a2::hexbig(&first_in), first_acc.map(|x| a2::hexbig(&x))), cj());
+                    return None;
+                }
+            }
             // a scalar the sampler accepted may be discarded by the operation only where the standard says so (r = 0,
             // r + k = n, s = 0, all-zero key stream, l = 0); any other discard skews the distribution of the scalars used
             for a in &accepted[..accepted.len() - 1] {
@@ -502,6 +514,10 @@ fn alphabets(op: &str, seed: u64) -> (Vec<(String, BigUint)>, Vec<(String, BigUi
         ("order-1".to_string(), &ord - 1u32),
         ("2^255".to_string(), &one << 255usize),
         ("mid".to_string(), refmodels::util::SplitMix::new(seed, "c14mid").nonzero_below(&(&ord - 2u32))),
+        // in-range values with zero bytes / a repeated byte / all-ones low limbs (a sampler may not be pickier than its range)
+        ("zero-bytes".to_string(), refmodels::util::hexbig("0100000000000000000000000000000000ff00000000000000000000000000a1")),
+        ("repeated-byte".to_string(), refmodels::util::hexbig("5a5a5a5a5a5a5a5a5a5a5a5a5a5a5a5a5a5a5a5a5a5a5a5a5a5a5a5a5a5a5a5a")),
+        ("low-limbs-ones".to_string(), refmodels::util::hexbig("00000000000000010000000000000000ffffffffffffffffffffffffffffffff")),
     ];
     let out = vec![
         ("0".to_string(), BigUint::zero()),
@@ -520,7 +536,7 @@ pub fn run(ctx: &Arc<Ctx>) {
     let _ = sm9fix();
     let dmax = ctx.tier.pick(2usize, 3);
     let fresh_len = ctx.tier.pick(2usize, 3);
-    ctx.set_rule("stateright BFS per call site (13 operations): the byte source behind the sampler answers with every sequence of <= D out-of-range candidates from {0, order, order+1, p-2, p-1, p, 2^256-1} followed by one in-range candidate from {1, 2, order-2, order-1, 2^255, mid}; in every terminal state the scalar the operation used — read from its public output with the reference (d; k = s(1+d)+rd; C1 = [k]G; R = [r]G; ks/ke; SM9 (h,S), C1, R_A, R_B recomputed) and from the seam log — must be one of the offered candidates and lie in [1, order-1]. Freshness: every sequence of length <= L over the 13 operations plus 'abort a started key-agreement run', executed on one thread against persistent objects (one private key, the two Exchange parties) and fed from a strictly increasing candidate stream - and every sequence of length <= 4 over {exchange_1, exchange_2, abort} - consumes a new candidate per drawing invocation and never reuses a scalar. A separate statistical monitor (4096 draws per sampler) is NOT model checking.");
+    ctx.set_rule("stateright BFS per call site (13 operations): the byte source behind the sampler answers with every sequence of <= D out-of-range candidates from {0, order, order+1, p-2, p-1, p, 2^256-1} followed by one in-range candidate from {1, 2, order-2, order-1, 2^255, mid, a value with zero bytes, a repeated byte, all-ones low limbs}, plus runs of 7..64 out-of-range candidates; the sampler may refuse an in-range candidate only if it is order-1 (or, SM9, has a zero low limb), and an operation may discard an accepted scalar only on the standard's retry conditions; in every terminal state the scalar the operation used — read from its public output with the reference (d; k = s(1+d)+rd; C1 = [k]G; R = [r]G; ks/ke; SM9 (h,S), C1, R_A, R_B recomputed) and from the seam log — must be one of the offered candidates and lie in [1, order-1]. Freshness: every sequence of length <= L over the 13 operations plus 'abort a started key-agreement run', executed on one thread against persistent objects (one private key, the two Exchange parties) and fed from a strictly increasing candidate stream - and every sequence of length <= 4 over {exchange_1, exchange_2, abort} - consumes a new candidate per drawing invocation and never reuses a scalar. A separate statistical monitor (4096 draws per sampler) is NOT model checking.");
     ctx.note_bound(format!("D={} deviations, L={} operations", dmax, fresh_len));
     // ---- range model
     let mut range_cases: Vec<Case> = Vec::new();
@@ -553,6 +569,20 @@ pub fn run(ctx: &Arc<Ctx>) {
                 offered.push(a2::hexbig(v));
                 names.push(n.clone());
             }
+            range_cases.push(Case::Range { op: ops.clone(), offered, names });
+        }
+        // long runs of out-of-range candidates (a sampler that gives up after a fixed number of draws shows only then)
+        for run in [7usize, 8, 9, 16, 17, 33, 64] {
+            let mut offered = Vec::new();
+            let mut names = Vec::new();
+            for i in 0..run {
+                let (n, v) = &out[(i * 3 + 1) % out.len()];
+                offered.push(a2::hexbig(v));
+                names.push(n.clone());
+            }
+            let (n, v) = &inr[(run + 2) % 3];
+            offered.push(a2::hexbig(v));
+            names.push(n.clone());
             range_cases.push(Case::Range { op: ops.clone(), offered, names });
         }
         ctx.depth(st.max_depth);
